@@ -44,10 +44,12 @@ PARTIAL = [
     "(_encrypt_blob on a conforming seed-key / DH / ECDH envelope yields a blob every cache_ok cache decrypts, both layouts), and the end-to-end corollaries "
     "C17_online_unprotect / C17_online_protect (hypotheses of C17_result + `dc marshals e` + `e conforms`; conclusion: ncrypt_(un)protect_secret with the cache-miss branch "
     "filled in by the conversation returns the plaintext / a blob that decrypts; every position, both flavours, seed-key and public-key replies; instances run inside Coq: "
-    "C17_online_unprotect_example, C17_online_protect_example). What remains outside these theorems: (a) unprotect_via_dc / protect_via_dc (Model/Client.v's offline functions with "
-    "the miss branch := the conversation; equal to the offline functions when no DC answers, C17_via_no_dc) are tied to the source only through C10's flow ties of the same shape "
-    "(Flow_cache_public.unprotect_online, whose oracle takes interpreter values); the equality of the two is by inspection, not a theorem (it would put C10's flow group into C17's "
-    "dependency cone); (b) conformance of the DC's envelope (env_ok / protect_env_ok) and the C06 size side conditions are hypotheses -- a non-conforming DC is outside the property; "
+    "C17_online_unprotect_example, C17_online_protect_example). unprotect_via_dc / protect_via_dc (Model/Client.v's offline functions with "
+    "the miss branch := the conversation; equal to the offline functions when no DC answers, C17_via_no_dc) ARE the functions C10's flow ties identify with the regenerated public "
+    "functions: C17_unprotect_online_is_via_dc / C17_protect_online_is_via_dc (Proofs/C17Bridge.v) prove Flow_cache_public.unprotect_online / protect_online equal to them, the "
+    "model-valued oracle being the interpreter-valued one applied to (server or the DC found for the domain, SD, root key id, L0, L1, L2 resp. -1, -1, -1, credentials). "
+    "What remains outside these theorems: (a) the oracle itself: that the `getkey` callee of C10's world is the conversation of C17_flow_sync_get_key / C17_flow_async_get_key is "
+    "the identification of one world entry with another theorem's subject, not a single composed statement; (b) conformance of the DC's envelope (env_ok / protect_env_ok) and the C06 size side conditions are hypotheses -- a non-conforming DC is outside the property; "
     "for a seed-key reply at L2 = 31 carrying an L2 key, that key must be the chain key (Spec/GkdiSpec.conforming is silent there; seed_env_ok adds it); (c) the primitives are the "
     "abstract Crypto record with its round-trip laws, as in C01; the round trips against the reference DC in online.refdc remain the tie to the real cryptography",
     "no liveness theorem: that a conforming peer script always leads to an envelope is shown by the Example C17_conversation_example (one complete conversation run inside Coq, both "
